@@ -116,15 +116,17 @@ class SandboxNativeTracer(SandboxBasicTracer):
         self.returns = {}
         self.call_stack = []
         self.lines = []
-        self.old_tracer = None
+        # One saved trace function per nesting level: a student file that
+        # imports another student file re-enters this tracer
+        self.old_tracers = []
         self.step_index = 1
 
     def __enter__(self):
-        self.old_tracer = sys.gettrace()
+        self.old_tracers.append(sys.gettrace())
         sys.settrace(self.tracer)
 
     def __exit__(self, exc_type, exc_val, traceback):
-        sys.settrace(self.old_tracer)
+        sys.settrace(self.old_tracers.pop())
 
     def is_tracked_file(self, frame):
         left = os.path.basename(frame.f_code.co_filename)
@@ -164,6 +166,7 @@ class SandboxCallTracer(SandboxBasicTracer, Bdb):
     def __init__(self):
         super().__init__()
         self.calls = {}
+        self._old_traces = []
 
     def user_call(self, frame, argument_list):
         """
@@ -179,13 +182,16 @@ class SandboxCallTracer(SandboxBasicTracer, Bdb):
         self.calls[name].append(code)
 
     def __enter__(self):
-        self.reset()
-        self._old_trace = sys.gettrace()
+        # Re-entered when a student file imports another student file
+        if not self._old_traces:
+            self.reset()
+        self._old_traces.append(sys.gettrace())
         sys.settrace(self.trace_dispatch)
 
     def __exit__(self, exc_type, exc_val, traceback):
-        sys.settrace(self._old_trace)
-        self.quitting = True
+        sys.settrace(self._old_traces.pop())
+        if not self._old_traces:
+            self.quitting = True
         # Return true to suppress exception (if it is a BdbQuit)
         return isinstance(exc_type, BdbQuit)
 
